@@ -78,14 +78,14 @@ func genClassEsc(t *rapid.T, o GenOpts) *Node {
 var rangeEnds = []uint16{' ', '-', '.', '1', 'A', '_', 'a', 'b', 'c'}
 
 func genClass(t *rapid.T, o GenOpts) *Node {
-	n := &Node{Kind: KClass, Neg: rapid.IntRange(0, 3).Draw(t, "neg") == 0}
-	if o.EmptyClass && rapid.IntRange(0, 24).Draw(t, "emptyclass") == 0 {
+	n := &Node{Kind: KClass, Neg: rapid.IntRange(0, 3).Draw(t, "neg") == 3}
+	if o.EmptyClass && rapid.IntRange(0, 59).Draw(t, "emptyclass") == 59 {
 		return n
 	}
 	k := rapid.IntRange(1, 4).Draw(t, "nitems")
 	for i := 0; i < k; i++ {
 		switch rapid.IntRange(0, 11).Draw(t, "item") {
-		case 0, 1, 2:
+		case 9, 10, 11:
 			lo := rapid.IntRange(0, len(rangeEnds)-1).Draw(t, "lo")
 			hi := rapid.IntRange(lo, len(rangeEnds)-1).Draw(t, "hi")
 			mk := func(c uint16) *Node {
@@ -93,15 +93,15 @@ func genClass(t *rapid.T, o GenOpts) *Node {
 				switch {
 				case c == '-':
 					f = "id"
-				case rapid.IntRange(0, 5).Draw(t, "rform") == 0:
+				case rapid.IntRange(0, 5).Draw(t, "rform") == 5:
 					f = "x"
 				}
 				return &Node{Kind: KChar, Ch: c, Form: f}
 			}
 			n.Items = append(n.Items, ClassItem{Lo: mk(rangeEnds[lo]), Hi: mk(rangeEnds[hi]), Range: true})
-		case 3, 4:
+		case 7, 8:
 			n.Items = append(n.Items, ClassItem{Lo: genClassEsc(t, o)})
-		case 5:
+		case 6:
 			// specials: \b (backspace), escaped ] ^ \ -, a ^ that is not first
 			sp := rapid.SampledFrom([]string{"bs", "]", "^", "\\", "-", "rawcaret"}).Draw(t, "special")
 			switch sp {
@@ -122,9 +122,9 @@ func genClass(t *rapid.T, o GenOpts) *Node {
 	}
 	// a literal dash first or last
 	switch rapid.IntRange(0, 11).Draw(t, "dash") {
-	case 0:
+	case 10:
 		n.Items = append([]ClassItem{{Lo: &Node{Kind: KChar, Ch: '-', Form: "lit"}}}, n.Items...)
-	case 1:
+	case 11:
 		n.Items = append(n.Items, ClassItem{Lo: &Node{Kind: KChar, Ch: '-', Form: "lit"}})
 	}
 	return n
@@ -174,7 +174,7 @@ func genQuant(t *rapid.T, atom *Node) *Node {
 		q.Min = rapid.IntRange(0, 2).Draw(t, "n")
 		q.Max = rapid.IntRange(q.Min, 3).Draw(t, "m")
 	}
-	q.Lazy = rapid.IntRange(0, 3).Draw(t, "lazy") == 0
+	q.Lazy = rapid.IntRange(0, 3).Draw(t, "lazy") == 3
 	return q
 }
 
@@ -226,13 +226,13 @@ func genDisjunction(t *rapid.T, o GenOpts, depth int) *Node {
 func GenTree(t *rapid.T, o GenOpts) *Node {
 	depth := rapid.IntRange(0, 3).Draw(t, "depth")
 	n := genDisjunction(t, o, depth)
-	if o.Big && rapid.IntRange(0, 15).Draw(t, "big") == 0 {
+	if o.Big && rapid.IntRange(0, 15).Draw(t, "big") == 15 {
 		// ten or eleven groups, so that $10 / $11 are real references
 		s := &Node{Kind: KSeq}
 		k := rapid.IntRange(10, 11).Draw(t, "ngroups")
 		for i := 0; i < k; i++ {
 			var g *Node = &Node{Kind: KGroup, Kids: []*Node{genChar(t, o, false)}}
-			if rapid.IntRange(0, 2).Draw(t, "optgroup") == 0 {
+			if rapid.IntRange(0, 2).Draw(t, "optgroup") == 2 {
 				g = &Node{Kind: KQuant, Kids: []*Node{g}, Min: 0, Max: 1, QForm: 2}
 			}
 			s.Kids = append(s.Kids, g)
@@ -349,13 +349,18 @@ func sampleEsc(t *rapid.T, esc byte) uint16 {
 // GenSubject draws a subject of at most maxUnits code units: derived from the pattern (a string it
 // matches, embedded in random context, then possibly damaged) or random over the alphabet.
 func GenSubject(t *rapid.T, tree *Node, ignoreCase, unicode bool, maxUnits int) []uint16 {
+	return GenSubjectRep(t, tree, ignoreCase, unicode, maxUnits, []int{1, 1, 1, 2})
+}
+
+// GenSubjectRep is GenSubject with the pool for the number of occurrences of a matching string.
+func GenSubjectRep(t *rapid.T, tree *Node, ignoreCase, unicode bool, maxUnits int, repsPool []int) []uint16 {
 	var out []uint16
 	if tree != nil && rapid.IntRange(0, 9).Draw(t, "derived") < 7 {
 		pre := rapid.IntRange(0, 2).Draw(t, "pre")
 		for i := 0; i < pre; i++ {
 			out = genUnit(t, unicode, out)
 		}
-		reps := rapid.SampledFrom([]int{1, 1, 1, 2}).Draw(t, "occurrences")
+		reps := rapid.SampledFrom(repsPool).Draw(t, "occurrences")
 		for r := 0; r < reps; r++ {
 			out = sample(t, tree, ignoreCase, unicode, out)
 			if r+1 < reps {
@@ -367,7 +372,7 @@ func GenSubject(t *rapid.T, tree *Node, ignoreCase, unicode bool, maxUnits int) 
 			out = genUnit(t, unicode, out)
 		}
 		// damage: replace or delete one unit
-		if len(out) > 0 && rapid.IntRange(0, 3).Draw(t, "damage") == 0 {
+		if len(out) > 0 && rapid.IntRange(0, 3).Draw(t, "damage") == 3 {
 			i := rapid.IntRange(0, len(out)-1).Draw(t, "dpos")
 			if rapid.Bool().Draw(t, "ddel") {
 				out = append(append([]uint16(nil), out[:i]...), out[i+1:]...)
